@@ -45,7 +45,8 @@ def _replay(job):
     return ("reproduced" if ok else "not_reproduced", info)
 
 
-NO_PUBLIC_REPLAY = ("trace_t1", "trace_t2", "read_model", "unmapped_var")
+NO_PUBLIC_REPLAY = ("trace_t1", "trace_t2", "read_model", "unmapped_var", "soft_guard", "soft_missing", "soft_not_maximal", "soft_priority",
+                    "soft_outcome", "bound_excludes", "order_violation", "swizzle_target")
 
 
 def run_specs(chk, specs, kinds, opts=None, sig_fn=None, nproc=None, chunk=None, extra_handler=None):
